@@ -327,7 +327,9 @@ def registry():
 
     @reg('util.to_180_range', forms=('array', 'list', 'series'))
     def _(rng, form):
-        return util.to_180_range, [as_form(rng.uniform(-1000, 1000, 6), form, list('abcdef'))], {}
+        a = rng.uniform(-1000, 1000, 6)
+        a[0] = float(rng.choice([180.0, -180.0, 540.0, -540.0, 900.0, 0.0, 360.0]))        # boundary values in every form, incl. the single one
+        return util.to_180_range, [as_form(a, form, list('abcdef'))], {}
 
     # ---- kalman
     @reg('kalman.compute_process_matrices')
@@ -564,8 +566,13 @@ def registry():
             inc = increments(rng, 40)
             truth = strapdown.Integrator(p, wa).integrate(inc)
             seed = int(rng.randint(10 ** 6))
-            ms = [measurements.Position(sim.generate_position_measurements(truth.iloc[5::10], 2.0, seed), 2.0),
-                  measurements.NedVelocity(sim.generate_ned_velocity_measurements(truth.iloc[8::10], 0.2, seed + 1), 0.2, np.array([0.5, 0.1, -0.2]))]
+            # the measurement tables cover MORE than the processed span (rows before the start and after the end)
+            def longer(rows):
+                ext = pd.concat([rows.iloc[:2], rows, rows.iloc[-2:]])
+                ext.index = np.concatenate([rows.index[:2] - 100.0, rows.index, rows.index[-2:] + 100.0])
+                return ext
+            ms = [measurements.Position(longer(sim.generate_position_measurements(truth.iloc[5::10], 2.0, seed)), 2.0),
+                  measurements.NedVelocity(longer(sim.generate_ned_velocity_measurements(truth.iloc[8::10], 0.2, seed + 1)), 0.2, np.array([0.5, 0.1, -0.2]))]
             gm, am = est_model(rng), est_model(rng, False)
             if which == 'feedback':
                 return filters.run_feedback_filter, [p, 5.0, 0.5, 0.5, 1.0, inc, gm, am, ms], {'time_step': 0.3, 'with_altitude': wa}
